@@ -703,12 +703,12 @@ func runCase(c *gal.Ctx, kind string, t *tpm.TPM, hist []cmdT, segEnd map[int]bo
 		c.OracleFail(idx, f.what, site, f.input)
 	}
 	for _, cm := range hist {
-		c.Count(fmt.Sprintf("cmd:%d", cm.kind))
+		c.Count("cmd:" + [...]string{"", "startup", "extend", "eventlogadd", "reset", "reset-no-init"}[cm.kind])
 	}
 }
 
 func main() {
-	c := gal.New("C02", header, 90)
+	c := gal.New("C02", header, 120)
 	shared := tpm.NewTPM()
 
 	// fixed witness of the repaired pool-index bug
@@ -720,7 +720,7 @@ func main() {
 	}
 
 	nSweep := 256
-	nRandom := c.Scale(900, 9000)
+	nRandom := c.Scale(1400, 12000)
 	for i := 0; i < nSweep+nRandom; i++ {
 		var hist []cmdT
 		segEnd := map[int]bool{}
